@@ -3,6 +3,12 @@
                                   REAL = (ret (v...) err leaked alldone) | deadlock
                                   compared with the set of outcomes the model allows (explorer
                                   over [expected n]) and with the specification.
+   (runc (CLASS...) (fs F...) REAL)  the same for a call in an input class named by symbols
+                                  (language version of the user's module, result-type shape of the
+                                  deriveDo instance, value policy); REAL may also be `panic`: the
+                                  derived function panicked although no user function did. The
+                                  result values are natural-number codes of typed values (0 = the
+                                  zero value / nil interface), so the prediction is the same.
    (search PROG (fs F...))        exhaustive search of the TRANSLATED program for a schedule that
                                   violates the property (used when translated <> expected).
    F    = (f (OP...) rv re)   OP = (s c) | (r c)   re = 0 (nil) | tag+1
@@ -114,12 +120,25 @@ Definition has_rdv (fs : list ufun) : bool :=
 (* depth 2^24 steps at most; every explored configuration here has < 10^5 states *)
 Definition depth : nat := 24.
 
-Definition eval_run (fs : list ufun) (real : sexp) : verdict :=
+Definition has_zero (fs : list ufun) : bool := existsb (fun f => Nat.eqb (rv f) 0) fs.
+
+Fixpoint class_str (l : list sexp) : string :=
+  match l with
+  | [] => ""
+  | Sym s :: t => s ++ "/" ++ class_str t
+  | _ :: t => class_str t
+  end.
+
+Definition eval_run (cls : list sexp) (fs : list ufun) (real : sexp) : verdict :=
   let n := length fs in
   let r := explore (expected n) fs depth in
   let model_clean := finished r && match found r with None => true | Some _ => false end in
-  let tag := "run/n=" ++ nat_str n ++ "/fail=" ++ nat_str (nfail fs) ++
-             (if has_rdv fs then "/rendezvous" else "/independent") in
+  let tag := match cls with
+             | [] => "run/n=" ++ nat_str n ++ "/fail=" ++ nat_str (nfail fs) ++
+                     (if has_rdv fs then "/rendezvous" else "/independent")
+             | _ => "runc/" ++ class_str cls ++ (if Nat.eqb (nfail fs) 0 then "all-succeed" else "some-fail") ++
+                    (if has_zero fs then "/nil-result" else "")
+             end in
   let model := L (Sym "outcomes" :: map out_sexp (outs r)) in
   match real with
   | L [Sym k; L vs; e; leaked; alldone] =>
@@ -135,8 +154,9 @@ Definition eval_run (fs : list ufun) (real : sexp) : verdict :=
       end
   | Sym k =>
       (* the real call did not return within the driver's time limit *)
-      {| v_known := String.eqb k "deadlock"; v_model_ok := false; v_spec_ok := false;
-         v_guard := model_clean; v_model := model; v_tag := tag ++ "/real-deadlock" |}
+      (* or the derived function panicked (user functions of the battery never panic) *)
+      {| v_known := String.eqb k "deadlock" || String.eqb k "panic"; v_model_ok := false; v_spec_ok := false;
+         v_guard := model_clean; v_model := model; v_tag := tag ++ "/real-" ++ k |}
   | _ => bad_line
   end.
 
@@ -157,12 +177,16 @@ Definition eval20 (e : sexp) : verdict :=
   match e with
   | L [Sym k; a; b] =>
       if String.eqb k "run" then
-        match fs_of a with Some fs => eval_run fs b | None => bad_line end
+        match fs_of a with Some fs => eval_run [] fs b | None => bad_line end
       else if String.eqb k "search" then
         match prog_of_sexp a, fs_of b with
         | Some P, Some fs => eval_search P fs
         | _, _ => bad_line
         end
+      else bad_line
+  | L [Sym k; L cls; a; b] =>
+      if String.eqb k "runc" then
+        match fs_of a with Some fs => eval_run cls fs b | None => bad_line end
       else bad_line
   | _ => bad_line
   end.
